@@ -47,6 +47,7 @@ import (
 	"github.com/tikv/client-go/v2/verifrt/ev"
 	"go.uber.org/zap"
 	"go.uber.org/zap/zapcore"
+	"google.golang.org/grpc/grpclog"
 )
 
 // ---------- log capture (recovered panics are only visible in the client's log) ----------
@@ -58,6 +59,7 @@ var (
 )
 
 func installLogCapture() {
+	grpclog.SetLoggerV2(grpclog.NewLoggerV2(io.Discard, io.Discard, io.Discard))
 	log.ReplaceGlobals(zap.New(&captureCore{}), &log.ZapProperties{})
 }
 
@@ -104,7 +106,20 @@ func panicLogsSince(mark int) (int, string) {
 	if len(panicLogs) <= mark {
 		return 0, ""
 	}
-	return len(panicLogs) - mark, strings.Join(panicLogs[mark:], "; ")
+	var distinct []string
+	seen := map[string]int{}
+	for _, m := range panicLogs[mark:] {
+		if seen[m] == 0 {
+			distinct = append(distinct, m)
+		}
+		seen[m]++
+	}
+	for i, m := range distinct {
+		if seen[m] > 1 {
+			distinct[i] = fmt.Sprintf("%s (x%d)", m, seen[m])
+		}
+	}
+	return len(panicLogs) - mark, strings.Join(distinct, "; ")
 }
 
 // ---------- worker process ----------
@@ -119,6 +134,9 @@ type workItem struct {
 func workerMain() {
 	runtime.GOMAXPROCS(1)
 	installLogCapture()
+	if v := os.Getenv("VERIF_C18_AUDIT_EVERY"); v != "" {
+		auditEvery, _ = strconv.ParseInt(v, 10, 64)
+	}
 	if !metricsUsable() {
 		fmt.Println(`{"fatal":"scheduler metrics not available"}`)
 		os.Exit(3)
@@ -152,7 +170,9 @@ func workerMain() {
 		}
 		logMu.Lock()
 		if len(errorLogs) > 0 {
-			res.Extra = map[string][]string{}
+			if res.Extra == nil {
+				res.Extra = map[string][]string{}
+			}
 			for m, n := range errorLogs {
 				res.Extra["error_logs"] = append(res.Extra["error_logs"], fmt.Sprintf("%s x%d", m, n))
 			}
@@ -160,10 +180,16 @@ func workerMain() {
 		}
 		logMu.Unlock()
 		res.Extra2(runtime.NumGoroutine())
+		if poisoned {
+			res.Extra["poisoned"] = []string{poisonedWhy}
+		}
 		b, _ := json.Marshal(res)
 		out.Write(b)
 		out.WriteByte('\n')
 		out.Flush()
+		if poisoned {
+			return // the parent starts a fresh worker
+		}
 	}
 }
 
@@ -255,6 +281,8 @@ type totals struct {
 	violCfg      map[string]Config
 	perCfg       []map[string]any
 	lost         int
+	poisoned     int
+	details      []string
 }
 
 func (t *totals) merge(cfg Config, r *subtreeResult) {
@@ -288,6 +316,11 @@ func (t *totals) merge(cfg Config, r *subtreeResult) {
 	}
 	t.audits += r.Audits
 	t.mismatch += r.Mismatch
+	for _, m := range r.Extra["inconclusive_details"] {
+		if len(t.details) < 12 {
+			t.details = append(t.details, m)
+		}
+	}
 	for _, m := range r.Extra["error_logs"] {
 		t.errorLogs[m[:strings.LastIndex(m, " x")]] = true
 	}
@@ -316,14 +349,19 @@ func tierConfigs(thorough bool) []Config {
 	if !thorough {
 		return []Config{
 			{Callers: 2, MaxF: 3, Conns: 1, Variants: true, Stale: true, AddrX: true},
-			{Callers: 3, MaxF: 2, Conns: 1, Variants: true, Stale: true, AddrX: true},
+			{Callers: 3, MaxF: 3, Conns: 1, Variants: true, Stale: true, AddrX: true},
+			// concurrency limit 1: later requests queue inside the send loop (priorities matter, batches > 1)
+			{Callers: 3, MaxF: 2, Conns: 1, Limit: 1, Variants: true, Stale: false, AddrX: false},
 		}
 	}
 	return []Config{
-		{Callers: 2, MaxF: 3, Conns: 1, Variants: true, Stale: true, AddrX: true},
-		{Callers: 3, MaxF: 2, Conns: 1, Variants: true, Stale: true, AddrX: true},
-		{Callers: 3, MaxF: 3, Conns: 1, Variants: false, Stale: true, AddrX: false},
-		{Callers: 3, MaxF: 2, Conns: 2, Variants: true, Stale: true, AddrX: false},
+		{Callers: 2, MaxF: 4, Conns: 1, Variants: true, Stale: true, AddrX: true},
+		{Callers: 3, MaxF: 3, Conns: 1, Variants: true, Stale: true, AddrX: true},
+		{Callers: 3, MaxF: 2, Conns: 1, Limit: 1, Variants: true, Stale: true, AddrX: true},
+		{Callers: 4, MaxF: 2, Conns: 1, Limit: 2, Variants: true, Stale: true, AddrX: false},
+		{Callers: 3, MaxF: 4, Conns: 1, Variants: false, Stale: true, AddrX: false},
+		{Callers: 4, MaxF: 2, Conns: 1, Variants: true, Stale: true, AddrX: true},
+		{Callers: 3, MaxF: 3, Conns: 2, Variants: true, Stale: true, AddrX: false},
 	}
 }
 
@@ -372,34 +410,56 @@ func exploreConfig(cfg Config, tot *totals, samples *ev.Samples, nproc int, dead
 				}
 			}()
 			for prefix := range ch {
-				if w == nil {
-					var err error
-					if w, err = startWorker(); err != nil {
-						run.Incomplete("cannot start worker: " + err.Error())
+				// A worker in which a goroutine of a finished execution keeps running ("poisoned") cannot
+				// reach quiescence any more: its partial result is dropped and the subtree is given to a
+				// fresh process (at most 3 attempts, then the last result is taken as it is).
+				for attempt := 1; ; attempt++ {
+					if w == nil {
+						var err error
+						if w, err = startWorker(); err != nil {
+							run.Incomplete("cannot start worker: " + err.Error())
+							tot.mu.Lock()
+							tot.lost++
+							tot.mu.Unlock()
+							break
+						}
+					}
+					res, err := w.do(workItem{Cfg: cfg, Prefix: prefix, Deadline: dl})
+					if err != nil {
+						run.Incomplete(fmt.Sprintf("worker failed on subtree %v: %v", prefix, err))
 						tot.mu.Lock()
 						tot.lost++
 						tot.mu.Unlock()
-						continue
+						w.stop()
+						w = nil
+						break
 					}
-				}
-				res, err := w.do(workItem{Cfg: cfg, Prefix: prefix, Deadline: dl})
-				if err != nil {
-					run.Incomplete(fmt.Sprintf("worker failed on subtree %v: %v", prefix, err))
-					tot.mu.Lock()
-					tot.lost++
-					tot.mu.Unlock()
-					w.stop()
-					w = nil
-					continue
-				}
-				tot.merge(cfg, res)
-				for _, s := range res.Samples {
-					s := s
-					samples.Add(func() any { return map[string]any{"config": cfg.String(), "events": s} })
-				}
-				if w.n > 4000 { // recycle the process now and then (bounded memory / leftover goroutines)
-					w.stop()
-					w = nil
+					if res.WallMs > 30000 {
+						fmt.Fprintf(os.Stderr, "c18: slow subtree %v: %d executions in %.1fs; slowest execution %.1fs %v\n", prefix, res.Executions, float64(res.WallMs)/1000, float64(res.SlowestMs)/1000, res.Slowest)
+					}
+					if len(res.Extra["poisoned"]) > 0 {
+						w.stop()
+						w = nil
+						tot.mu.Lock()
+						tot.poisoned++
+						if len(tot.details) < 12 {
+							tot.details = append(tot.details, fmt.Sprintf("worker replaced while exploring %v: %v", prefix, res.Extra["poisoned"]))
+						}
+						tot.mu.Unlock()
+						if attempt < 3 && (dl == 0 || time.Now().Unix() < dl) {
+							continue
+						}
+					}
+					tot.merge(cfg, res)
+					for _, s := range res.Samples {
+						s := s
+						samples.Add(func() any { return map[string]any{"config": cfg.String(), "events": s} })
+					}
+					if w != nil && w.n > 4000 { // recycle the process now and then (bounded memory / leftover goroutines)
+						w.stop()
+						w = nil
+					}
+					break
 				}
 			}
 		}()
@@ -441,6 +501,12 @@ func doReplay(file string) {
 	const n = 5
 	for i := 0; i < n; i++ {
 		t := runOne(f.Replay.Cfg, f.Replay.Events, false)
+		if poisoned {
+			fmt.Printf("replay %d: a goroutine of this execution could not be stopped (busy: %s)\n", i, busyGoroutines())
+		}
+		if i == 0 {
+			fmt.Printf("in-flight table before the final Close: %d entr(y/ies), sent counter %d, outcome %s\n", t.InflightEntries, t.InflightSent, t.Outcome)
+		}
 		switch {
 		case t.Inconclusive != "":
 			fmt.Printf("replay %d: inconclusive: %s\n", i, t.Inconclusive)
@@ -546,10 +612,12 @@ func main() {
 		"max_requests_in_one_batch": tot.maxBatch,
 		"inconclusive_executions":   inconclusive,
 		"diverged_executions":       tot.diverged,
+		"workers_replaced":          tot.poisoned,
 		"lost_subtrees":             tot.lost,
 		"stack_audits":              tot.audits,
 		"stack_audit_mismatches":    tot.mismatch,
 		"client_error_logs":         elogs,
+		"inconclusive_details":      tot.details,
 	}, []string{
 		"Level 1 only: interleavings of goroutines inside the client between two environment events are left to the Go scheduler (one P) and are not enumerated; requests are therefore never batched together unless the concurrency limit queues them.",
 		"Quiescence = scheduler metrics (no runnable goroutine, none in a system call) under GOMAXPROCS=1, cross-checked by stack snapshots; gRPC keeps real timers (keepalive >= 10 s, reconnect back-off) that do not fire in millisecond executions.",
